@@ -795,6 +795,14 @@ impl<P: RuntimeProvider + Send + Sync> SqliteZoneHandler<P> {
                     //  Update RR, otherwise replace the CNAME Zone RR with the CNAME Update
                     //  RR.
 
+                    // the one SOA of the zone is at its origin, at any other name "there is no Zone
+                    //  SOA RR" and the Update RR is ignored. (The origin's SOA must pass even if
+                    //  the zone has none yet, journal recovery rebuilds the zone through here.)
+                    if rr.record_type() == RecordType::SOA && rr_name != *self.origin() {
+                        info!("ignoring SOA not at the zone origin: {rr:?}");
+                        continue;
+                    }
+
                     // zone     rrset    rr       Add to an RRset
                     info!("upserting record: {rr:?}");
                     let upserted = self.in_memory.upsert(rr.clone(), serial).await;
